@@ -281,6 +281,10 @@ func (o *Overlay) checkPendingTreeMarshal(el *Roster) {
 		return
 	}
 	for _, tm := range sl {
+		if !o.treeStorage.IsRequested(tm.TreeID) {
+			// received in the meantime
+			continue
+		}
 		tree, err := tm.MakeTree(el)
 		if err != nil {
 			log.Error("Tree from Roster failed")
@@ -437,9 +441,10 @@ func (o *Overlay) handleSendTreeMarshal(si *network.ServerIdentity, tm *TreeMars
 		return
 	}
 
-	if !o.treeStorage.IsRegistered(tm.TreeID) {
-		// we only accept known trees to prevent a denial of service
-		// by filling up the storage
+	if !o.treeStorage.IsRequested(tm.TreeID) {
+		// we only accept trees we asked for and did not receive yet, to
+		// prevent a denial of service by filling up the storage and the
+		// replacement of a known tree by a peer
 		log.Error("ignoring unknown tree")
 		return
 	}
@@ -483,9 +488,10 @@ func (o *Overlay) handleSendTree(si *network.ServerIdentity, rt *ResponseTree, i
 		return
 	}
 
-	if !o.treeStorage.IsRegistered(rt.TreeMarshal.TreeID) {
-		// we only accept known trees to prevent a denial of service
-		// by filling up the storage
+	if !o.treeStorage.IsRequested(rt.TreeMarshal.TreeID) {
+		// we only accept trees we asked for and did not receive yet, to
+		// prevent a denial of service by filling up the storage and the
+		// replacement of a known tree by a peer
 		log.Error("ignoring unknown tree")
 		return
 	}
